@@ -499,9 +499,8 @@ class Scanner(AsyncScript, ABC):
     async def teardown(self) -> None:
         await self.transport.close()
 
-        if self.db_handler is not None:
-            # Close the DB handler that was opened in `setup`
-            await self.db_handler.disconnect()
+        # The DB handler is closed by `entry_point()` (`_db_finish_run_meta()`),
+        # which still needs the connection to complete the run_meta entry.
 
         if self.dumpcap:
             await self.dumpcap.stop()
